@@ -1,6 +1,8 @@
 import TinsModel.Wire.Chain.FixIp
 import TinsModel.Wire.Chain.FixTransport
 import TinsModel.Wire.Chain.FixL2
+import TinsModel.Wire.Chain.FixIp6
+import TinsModel.Wire.Chain.FixIcmp
 /-
   Second-serialization fixed point, part 3: **the one-layer step for every covered class** (`fix_all`) over the interface the
   registry uses.
@@ -21,6 +23,8 @@ open Tins.Wire.L2 (layerView splitRaw stripView padOf ViewEq IsTail TailInner cx
 def FixCov : AnyObj → Prop
   | .raw _ => True
   | .l2 _ => True
+  | .ip6 _ => True
+  | .icmp _ => True
   | .ip _ => True
   | .tr _ => True
   | _ => False
@@ -86,8 +90,85 @@ theorem fix_all (ps ps' : List LayerInfo) (x : AnyObj) (os os' : List AnyObj) (h
     subst hx'
     exact l2_fix (cxOf ps os) (cxOf ps' os') o os os' hinv hser ⟨hwi1, hwi2⟩ hna' hstp rfl rfl region io hlen hio out hw k hk0 hsim
       e2 he2 hsz
-  | ip6 o => exact hcov.elim
-  | icmp o => exact hcov.elim
+  | ip6 o =>
+    cases o with
+    | ip6 p =>
+      have hname : n = "IPv6" := by rcases hn with h | h; exact h; exact h.elim
+      subst hname
+      have he0 : e2 = 0 := by
+        rcases he2 with h | ⟨_, h⟩
+        · exact h
+        · exact h.symm
+      subst he0
+      obtain ⟨hhp, h16⟩ : (∀ h ∈ p.headers, Ip6.Ipv6.HdrParsed h) ∧ p.hdr + sizeOfStack os - 40 < 65536 := hside
+      have hlen0 : region.length = p.hdr + sizeOfStack os := hlen
+      have hnl : (Ip6.Ipv6.isExtensionHeader (Ip6.Ipv6.lastNext (cxOf ps os) p) &&
+          Ip6.Ipv6.lastNext (cxOf ps os) p != Ip6.Ipv6.NO_NEXT_HEADER) = false := by
+        cases hnx : nextA os with
+        | none => have := nextA_none hnx; subst this; rw [lastNext_nil]; exact no_next_header_ok
+        | raw q =>
+          have := nextA_raw hnx; subst this
+          have hl3 : Ip6TailOK p := by simpa only [LinkAll, hnx] using hlink
+          rw [lastNext_raw]; exact hl3.1
+        | obj y r =>
+          have hos := (nextA_obj hnx).1; subst hos
+          have hl2 : Ip6.Ipv6.hasFragment p.headers = false ∧ ProtoTier y := by simpa only [LinkAll, hnx] using hlink
+          rw [lastNext_obj ps y r p hl2.2]; exact (protoTier_roundtrip y hl2.2).2.2.2
+        | bad => simp only [LinkAll, hnx] at hlink
+      exact fix_of_simple _ x' os os' _ region io out k rfl hlen hio hsz
+        (ip6_fix (cxOf ps os) (cxOf ps' os') p hinv hhp hnl region (by rw [cxOf_innerSizeA]; exact hlen0) (by omega) _ out hw
+          x' inner hp hsim)
+  | icmp o =>
+    have hk0 : k = 0 := k_zero_of_not_padOK hk (fun h => h) rfl
+    subst hk0
+    rw [List.replicate_zero, List.append_nil] at hp
+    have hll := leaf_link hlink
+    have htail : tailBytes os = io := by
+      rcases hll with h | ⟨q, h⟩
+      · rw [nextA_none h, hnil (nextA_none h)]; rfl
+      · rw [nextA_raw h, hraw q (nextA_raw h)]; rfl
+    cases o with
+    | icmp p =>
+      have hname : n = "ICMP" := by rcases hn with h | h; exact h; exact h.elim
+      subst hname
+      obtain ⟨hsm, hext, hg⟩ := hside
+      have ht : p.trl (sizeOfStack os) = 0 := icmp_trl_zero p hext _
+      have he0 : e2 = 0 := by
+        rcases he2 with h | ⟨h, _⟩
+        · exact h
+        · rw [h]; show p.trl (sizeOfStack os) + 0 = 0; omega
+      subst he0
+      have hisz : (cxOf ps' os').innerSize = (cxOf ps os).innerSize := by
+        rw [cxOf_innerSizeA, cxOf_innerSizeA, hsz]; rfl
+      have hlen0 : region.length = p.hdr + sizeOfStack os := by
+        have : region.length = p.hdr + sizeOfStack os + p.trl (sizeOfStack os) := hlen
+        omega
+      have hio' : region.drop p.hdr = io := by rw [← hio]; exact (take_drop_fullA region p.hdr _ hlen0).symm
+      exact fix_of_simple (.icmp (.icmp p)) x' os os' _ region io out 0 ht hlen hio hsz
+        (icmp_fix (cxOf ps os) (cxOf ps' os') p hinv hsm hext region (by omega)
+          (fun ha => by have := hg ha; rw [htail, ← cxOf_innerSizeA ps os, ← hio'] at this; exact this)
+          out hw x' inner hp hisz)
+    | icmp6 p =>
+      have hname : n = "ICMPv6" := by rcases hn with h | h; exact h; exact h.elim
+      subst hname
+      obtain ⟨hsm, hext, _, hbw, how, hg⟩ := hside
+      have ht : p.trl (sizeOfStack os) = 0 := icmp6_trl_zero p hext _
+      have he0 : e2 = 0 := by
+        rcases he2 with h | ⟨h, _⟩
+        · exact h
+        · rw [h]; show p.trl (sizeOfStack os) + 0 = 0; omega
+      subst he0
+      have hisz : (cxOf ps' os').innerSize = (cxOf ps os).innerSize := by
+        rw [cxOf_innerSizeA, cxOf_innerSizeA, hsz]; rfl
+      have hlen0 : region.length = p.hdr + sizeOfStack os := by
+        have : region.length = p.hdr + sizeOfStack os + p.trl (sizeOfStack os) := hlen
+        omega
+      have hio' : region.drop p.hdr = io := by rw [← hio]; exact (take_drop_fullA region p.hdr _ hlen0).symm
+      rw [htail, ← cxOf_innerSizeA ps os] at hbw hg
+      rw [htail] at how
+      exact fix_of_simple (.icmp (.icmp6 p)) x' os os' _ region io out 0 ht hlen hio hsz
+        (icmp6_fix (cxOf ps os) (cxOf ps' os') p hinv hser hsm hext region (by omega) (by rw [hio']; exact hbw)
+          (by rw [hio']; exact how) (by rw [hio']; exact hg) out hw x' inner hp hsim hisz)
   | app o => exact hcov.elim
   | wifi o => exact hcov.elim
   | ip o =>
